@@ -429,10 +429,11 @@ let () =
                                set_v (Printf.sprintf "PROPFAIL %s max-depends-on-block-size B=%s:%s B=%s:%s wc=%b" tag b_str rb alt ra
                                         (match env with Ok v -> ce_wc (nat_of_int 5) v | _ -> false));
                              (* the model under the other block size, on the arm that also replays the skeleton *)
-                             if with_skel && za <> `Panic then
+                             if with_skel then
                                (match env with
                                 | Ok v ->
                                     (match ce_max_after v am thr (nat_of_int (int_of_string alt)) O, za with
+                                     | Panic _, `Panic -> ()
                                      | Ok None, `None -> ()
                                      | Ok (Some (p, x)), `Some (ip, ib) ->
                                          if int_of_nat p <> ip || int_bits_of_f32 x <> ib then set_v (Printf.sprintf "DIFF %s maxb model=%d:%d impl=%s" tag (int_of_nat p) (int_bits_of_f32 x) ra)
